@@ -433,6 +433,18 @@ func c04BigLog() [][]gEntry {
 	return [][]gEntry{b1, b2, b3}
 }
 
+// a log whose second and third batches stage no write at all: a no-op, a transaction whose predicate fails and that
+// has no failure branch, a transaction that only reads - the applied index still has to move (and be durable after
+// the next sync)
+func c04QuietLog() [][]gEntry {
+	b1 := []gEntry{putE(1, "a", "1"), putE(2, "b", "2")}
+	b2 := []gEntry{{Idx: 3, Cmd: gCmd{Kind: regattapb.Command_DUMMY}},
+		{Idx: 4, Cmd: gCmd{Kind: regattapb.Command_TXN, Cmps: []gCmp{{Res: 0, Key: []byte("a"), HasVal: true, Val: []byte("other")}}, Succ: []gOp{{Kind: 1, K: []byte("c"), V: []byte("3")}}}}}
+	b3 := []gEntry{{Idx: 5, Cmd: gCmd{Kind: regattapb.Command_TXN, Succ: []gOp{{Kind: 0, R: gRange{Key: []byte("a")}}}}}}
+	b4 := []gEntry{putE(6, "d", "4")}
+	return [][]gEntry{b1, b2, b3, b4}
+}
+
 type c04scenario struct {
 	name string
 	ops  []c04hop
@@ -529,7 +541,7 @@ func runC04(args []string) error {
 		return err
 	}
 	sum := &Summary{Engine: "c04", Seed: rf.Seed,
-		Rule: "real fsm.FSM over Pebble's strict in-memory file system behind a sync-counting, event-recording wrapper. For each scenario (fixed: first open, updates, sync, clean close and reopen, snapshot install in both formats, unsynced tail, two installs; plus random operation sequences) and EVERY sync operation k issued by regatta or Pebble (file fsync or directory sync; other operations do not change what is durable) the k-th and all later syncs are dropped, the volatile state is discarded and the table is reopened; additionally a second crash at several syncs of the reopen itself. Go oracle: reopen succeeds, reported index is a batch boundary with content = entries 1..i, i >= index covered by the last completed sync/close/install, re-applying the entries after i reaches the no-crash end state. Coq: the recorded protocol events of the no-crash run must equal the model's primitive steps, and for every crash point (position = events completed before the crash) the model must admit the reopen outcome for some survival oracle. distinct = (scenario, crash points); non-trivial = crash after the first completed open"}
+		Rule: "real fsm.FSM over Pebble's strict in-memory file system behind a sync-counting, event-recording wrapper. For each scenario (fixed: first open, updates, sync, clean close and reopen, snapshot install in both formats, unsynced tail, two installs, a large mixed batch, batches that stage no write; plus random operation sequences) and EVERY sync operation k issued by regatta or Pebble (file fsync or directory sync; other operations do not change what is durable) the k-th and all later syncs are dropped, the volatile state is discarded and the table is reopened; additionally a second crash at several syncs of the reopen itself. Go oracle: reopen succeeds, reported index is a batch boundary with content = entries 1..i, i >= index covered by the last completed sync/close/install, re-applying the entries after i reaches the no-crash end state. Coq: the recorded protocol events of the no-crash run must equal the model's primitive steps, and for every crash point (position = events completed before the crash) the model must admit the reopen outcome for some survival oracle. distinct = (scenario, crash points); non-trivial = crash after the first completed open"}
 	cf := &CasesFile{Requires: []string{"Model.Bytes", "Model.Obs", "Model.DirProto", "Run.C04Run"}, CaseType: "c04case", Check: "c04_check", Show: "c04_model"}
 	hs, hk := sum.hist("syncs_per_scenario"), sum.hist("hops")
 	rnd := rf.rng()
@@ -685,6 +697,12 @@ func runC04(args []string) error {
 	o, u, sy, settle := c04hop{kind: 0}, c04hop{kind: 1}, c04hop{kind: 2}, c04hop{kind: 5}
 	if err := runLog(c04BigLog(), []c04scenario{
 		{"large mixed batch, unsynced", []c04hop{o, u, sy, u, settle, u}},
+	}); err != nil {
+		return err
+	}
+	if err := runLog(c04QuietLog(), []c04scenario{
+		{"batches that stage no write, synced", []c04hop{o, u, u, sy, u, sy, u}},
+		{"batches that stage no write, close and reopen", []c04hop{o, u, u, u, c04hop{kind: 3}, o, u}},
 	}); err != nil {
 		return err
 	}
